@@ -27,6 +27,7 @@ mod replay {
     use crate::evaluate::simple_evaluator::SimpleEvaluator;
     use crate::evaluate::Evaluator;
     use crate::board::piece::Kind;
+    use crate::board::zkey::ZKey;
 
     fn neg(s: Score) -> Score {
         s.saturating_neg()
@@ -166,6 +167,127 @@ mod replay {
             emv.unwrap_or_else(|| "none".to_string()),
             search.info.nodes
         );
+    }
+
+    // ---- interrupted searches (property C13): is everything left in the cache from completely searched subtrees?
+
+    /// value of a node whose remaining depth `d` already includes the check extension (what a cache entry of depth d claims)
+    fn ref_node(board: &mut Board, d: u32, ply: i32) -> i32 {
+        let moves = board.get_legal_moves();
+        if moves.is_empty() {
+            return if board.is_in_check(board.current_turn) { i32::from(Score::MIN) + ply } else { 0 };
+        }
+        let mut best = -1_000_000;
+        for mv in moves {
+            board.make_move(mv);
+            let s = -ref_ab(board, d - 1, ply + 1, -1_000_000, -best);
+            board.unmake_move();
+            best = best.max(s);
+        }
+        best
+    }
+
+    fn collect(board: &mut Board, depth: u32, ply: i32, out: &mut std::collections::HashMap<ZKey, (Board, i32)>) {
+        out.entry(board.zkey).or_insert_with(|| (board.clone(), ply));
+        if board.get_halfmove_clock() >= 100 || (ply > 0 && board.position_reached(board.zkey)) {
+            return;
+        }
+        let d = depth + u32::from(ply > 0 && board.is_in_check(board.current_turn));
+        if d == 0 || ply > 12 {
+            return;
+        }
+        for mv in board.get_legal_moves() {
+            board.make_move(mv);
+            collect(board, d - 1, ply + 1, out);
+            board.unmake_move();
+        }
+    }
+
+    /// cut <depth> <node budget, 0 = none> <fen..> [moves ..]: a search with that node budget from an empty cache; every
+    /// entry left in the cache is compared with the exact value of its position at its depth (Exact: equal, Lower: value >=
+    /// score, Upper: value <= score).  Entries of positions outside the enumerated tree are counted as unknown.
+    pub fn cut(args: &[String]) {
+        let depth: u8 = args[0].parse().expect("depth");
+        let budget: u64 = args[1].parse().expect("nodes");
+        let Some(mut board) = setup(&args[2..]) else {
+            println!("BAD position");
+            return;
+        };
+        let mut tree = std::collections::HashMap::new();
+        collect(&mut board, u32::from(depth), 0, &mut tree);
+        TRANSPOSITION_TABLE.write().expect("table").clear();
+        let limits = SearchLimits::new().nodes(if budget == 0 { None } else { Some(budget) });
+        let mut search = Search::new(&board, Some(limits));
+        search.search(&SimpleEvaluator, Some(depth));
+        let entries: Vec<(ZKey, TTEntry)> = TRANSPOSITION_TABLE.read().expect("table").iter().map(|(k, e)| (*k, *e)).collect();
+        let (mut unsound, mut unknown) = (0, 0);
+        let mut first = String::new();
+        for (k, e) in &entries {
+            let Some((b, ply)) = tree.get(k) else {
+                unknown += 1;
+                continue;
+            };
+            let mut b = b.clone();
+            let v = if e.depth == 0 {
+                // only a changed tree stores horizon nodes: what such an entry claims is the quiescence value
+                ref_q(&mut b, -1_000_000, 1_000_000)
+            } else if *ply == 0 {
+                // the root entry is written by alpha_beta_start: full width over the root moves, no extension
+                ref_node(&mut b, u32::from(e.depth), 0)
+            } else {
+                ref_node(&mut b, u32::from(e.depth), *ply)
+            };
+            let sc = i32::from(e.score);
+            let ok = match e.bound {
+                Bounds::Exact => v == sc,
+                Bounds::Lower => v >= sc,
+                Bounds::Upper => v <= sc,
+            };
+            if !ok {
+                unsound += 1;
+                if first.is_empty() {
+                    first = format!("ply {} depth {} bound {:?} score {} exact_value {}", ply, e.depth, e.bound, sc, v);
+                }
+            }
+        }
+        println!(
+            "OK cut nodes {} entries {} unsound {} unknown {} first [{}]",
+            search.info.nodes,
+            entries.len(),
+            unsound,
+            unknown,
+            first
+        );
+    }
+
+    // ---- determinism (property C16)
+
+    fn one_search(board: &Board, depth: u8) -> String {
+        TRANSPOSITION_TABLE.write().expect("table").clear();
+        let mut search = Search::new(board, None);
+        search.search(&SimpleEvaluator, Some(depth));
+        format!(
+            "{}/{}/{}",
+            search.info.best_move.map_or("none".to_string(), |m| m.to_notation()),
+            search.info.best_score.map_or("none".to_string(), |s| s.to_string()),
+            search.info.nodes
+        )
+    }
+
+    /// det <depth> <fen..> [moves ..]: the same fixed-depth search from an emptied cache three times in one process - first
+    /// thing in the process, again, and again after an unrelated search; prints the three (move/score/nodes) results
+    pub fn det(args: &[String]) {
+        let depth: u8 = args[0].parse().expect("depth");
+        let Some(board) = setup(&args[1..]) else {
+            println!("BAD position");
+            return;
+        };
+        let a = one_search(&board, depth);
+        let b = one_search(&board, depth);
+        let other = Board::from_fen("r3k2r/p1ppqpb1/bn2pnp1/3PN3/1p2P3/2N2Q1p/PPPBBPPP/R3K2R w KQkq - 0 1");
+        let _ = one_search(&other, 2);
+        let c = one_search(&board, depth);
+        println!("OK det {a} {b} {c}");
     }
 
     // ---- mate oracle (property C12): exhaustive, rules only
@@ -315,6 +437,8 @@ pub fn main(args: &[String]) {
         match cmd {
             "cmp" => return replay::cmp(&args[1..]),
             "mates" => return replay::mates(&args[1..]),
+            "cut" => return replay::cut(&args[1..]),
+            "det" => return replay::det(&args[1..]),
             "playout" => return replay::playout(&args[1..]),
             _ => {}
         }
